@@ -54,6 +54,11 @@ def gen_doc(rnd):
                 j['axis'] = None
             if j['type'] == 'revolute':
                 lo = round(rnd.uniform(-3.0, -0.2), 3); hi = round(rnd.uniform(0.2, 3.0), 3)
+                zb = rnd.random()          # one-sided joints: a bound written as exactly zero (elbows, grippers)
+                if zb < 0.15:
+                    lo = 0.0
+                elif zb < 0.3:
+                    hi = 0.0
                 j['limit'] = [lo, hi]
             else:
                 j['limit'] = None
